@@ -48,7 +48,11 @@ def main():
         sh(f"cp /repo/Cargo.lock {ROOT}/harness/Cargo.lock")
         sh("cargo +nightly build --offline -q", cwd=os.path.join(ROOT, "harness"),
            env=dict(os.environ, CARGO_NET_OFFLINE="true", CARGO_TARGET_DIR=TARGET,
+                    # build scripts and proc macros are instrumented too: keep their profiles out of the source trees
+                    LLVM_PROFILE_FILE=os.path.join(OUT, "build-%p-%m.profraw"),
                     RUSTFLAGS="--cfg cel_rust_verif -Awarnings -C instrument-coverage"))
+        for f in glob.glob(os.path.join(OUT, "build-*.profraw")):
+            os.remove(f)
     for f in glob.glob(os.path.join(OUT, "*.profraw")):
         os.remove(f)
     pids = sorted(props.PROPS)
